@@ -141,7 +141,8 @@ theorem worker_stuck {p : Params} {s : St} {w : WPc} (hL : LInv p s) (hw : w ∈
 /-- What a client that cannot move looks like, when neither the pool lock nor the stack mutex is held. -/
 theorem client_stuck {p : Params} {s : St} {c : Client} (hw : s.writer = false) (hsh : s.stackHeld = false)
     (hloc : c.pc.locked = false) (hsub : ∀ t, c.pc = .sub t → unret s t = true) (h : clientStep p s c = []) :
-    (c.pc = .idle ∧ c.script = []) ∨ ((c.pc = .wc ∨ c.pc = .stWait) ∧ wg s ≠ 0) ∨ (c.pc = .wz ∧ s.pending ≠ 0) := by
+    (c.pc = .idle ∧ c.script = []) ∨ ((c.pc = .wc ∨ c.pc = .stWait) ∧ wg s ≠ 0) ∨ (c.pc = .wz ∧ s.pending ≠ 0) ∨
+      (∃ n, c.pc = .waSleep n) := by
   obtain ⟨pc, script⟩ := c
   cases pc <;> simp [CPc.locked] at hloc
   case idle =>
@@ -173,7 +174,12 @@ theorem client_stuck {p : Params} {s : St} {c : Client} (hw : s.writer = false) 
     simp only [clientStep] at h
     by_cases hz : s.pending = 0
     · rw [if_pos hz] at h; simp at h
-    · exact Or.inr (Or.inr ⟨rfl, hz⟩)
+    · exact Or.inr (Or.inr (Or.inl ⟨rfl, hz⟩))
+  case wa n =>
+    simp only [clientStep] at h
+    rw [if_neg (by simp [hsh])] at h
+    split at h <;> simp at h
+  case waSleep n => exact Or.inr (Or.inr (Or.inr ⟨n, rfl⟩))
 
 /-- Facts extracted from "nobody can move". -/
 structure StuckFacts (p : Params) (s : St) (ts : List Thr) : Prop where
@@ -254,7 +260,8 @@ theorem stuck_threads {p : Params} {s : St} {ts : List Thr} (F : FInv p (s, ts))
     (hw : s.writer = false) (hsh : s.stackHeld = false) :
     (∀ w ∈ s.workers, w = .exited ∨ ((w = .sel2 ∧ s.sig = 0 ∨ w = .drain) ∧ chanIds s = [] ∧ s.closed = false)) ∧
     (∀ cl, Thr.client cl ∈ ts →
-      (cl.pc = .idle ∧ cl.script = []) ∨ ((cl.pc = .wc ∨ cl.pc = .stWait) ∧ wg s ≠ 0) ∨ (cl.pc = .wz ∧ s.pending ≠ 0)) ∧
+      (cl.pc = .idle ∧ cl.script = []) ∨ ((cl.pc = .wc ∨ cl.pc = .stWait) ∧ wg s ≠ 0) ∨ (cl.pc = .wz ∧ s.pending ≠ 0) ∨
+      (∃ n, cl.pc = .waSleep n)) ∧
     (∀ tid, unret s tid = false) := by
   have hO : ∀ tid, ts.countP (Thr.subs tid) + s.workers.countP (WPc.subs tid) = b2n (unret s tid) := F.o
   have unret_of_pos : ∀ tid, 0 < ts.countP (Thr.subs tid) + s.workers.countP (WPc.subs tid) → unret s tid = true := by
@@ -277,7 +284,8 @@ theorem stuck_threads {p : Params} {s : St} {ts : List Thr} (F : FInv p (s, ts))
       have w1 : b2n s.writer = ts.countP Thr.locked := F.t.w1
       rw [hw] at w1; simp only [b2n_false] at w1; omega
   have hCl : ∀ cl, Thr.client cl ∈ ts →
-      (cl.pc = .idle ∧ cl.script = []) ∨ ((cl.pc = .wc ∨ cl.pc = .stWait) ∧ wg s ≠ 0) ∨ (cl.pc = .wz ∧ s.pending ≠ 0) := by
+      (cl.pc = .idle ∧ cl.script = []) ∨ ((cl.pc = .wc ∨ cl.pc = .stWait) ∧ wg s ≠ 0) ∨ (cl.pc = .wz ∧ s.pending ≠ 0) ∨
+      (∃ n, cl.pc = .waSleep n) := by
     intro cl hcl
     refine client_stuck hw hsh (hloc cl hcl) ?_ (S.cl cl hcl)
     intro t hp
@@ -299,10 +307,11 @@ theorem stuck_threads {p : Params} {s : St} {ts : List Thr} (F : FInv p (s, ts))
       | runner => simp [Thr.subs] at hs
       | client cl =>
         obtain ⟨pc, sc⟩ := cl
-        rcases hCl _ ht with a | a | a
+        rcases hCl _ ht with a | a | a | a
         · simp at a; rw [a.1] at hs; simp [Thr.subs] at hs
         · rcases a.1 with b | b <;> (simp at b; rw [b] at hs; simp [Thr.subs] at hs)
         · simp at a; rw [a.1] at hs; simp [Thr.subs] at hs
+        · obtain ⟨n, a⟩ := a; simp at a; rw [a] at hs; simp [Thr.subs] at hs
     · obtain ⟨w, hwm, hs⟩ := List.countP_pos_iff.mp h2
       rcases hWk w hwm with a | a
       · subst a; simp [WPc.subs] at hs
@@ -371,7 +380,7 @@ shutdown of a pool that is running (again), and a stopped pool has no live gorou
 theorem stuck_good {p : Params} {s : St} {ts : List Thr} (hW : 0 < p.W) (F : FInv p (s, ts))
     (hst : Stuck (sys p) (s, ts)) :
     s.pending = 0 ∧
-    (∀ t ∈ ts, t.finished = true ∨ (t.atWaitComplete = true ∧ s.running = true)) ∧
+    (∀ t ∈ ts, t.finished = true ∨ (t.atWaitComplete = true ∧ s.running = true) ∨ t.atQueueWait = true) ∧
     (s.running = false → wg s = 0) := by
   have S := stuck_facts F.r hst
   have hw := stuck_writer F S
@@ -395,10 +404,11 @@ theorem stuck_good {p : Params} {s : St} {ts : List Thr} (hW : 0 < p.W) (F : FIn
             have : 0 < ts.countP Thr.locked := List.countP_pos_iff.mpr ⟨_, ht, by simp [Thr.locked, hl]⟩
             have w1 : b2n s.writer = ts.countP Thr.locked := F.t.w1
             rw [hw] at w1; simp only [b2n_false] at w1; omega
-        rcases hCl _ ht with x | x | x
+        rcases hCl _ ht with x | x | x | x
         · simp at x; rw [x.1]; simp [Thr.bc, CPc.bc]
         · rcases x.1 with y | y <;> (simp at y; rw [y]; simp [Thr.bc, CPc.bc])
         · simp at x; rw [x.1]; simp [Thr.bc, CPc.bc]
+        · obtain ⟨n, x⟩ := x; simp at x; rw [x]; simp [Thr.bc, CPc.bc]
     have b : s.workers.countP WPc.isSignal = 0 := by
       rw [List.countP_eq_zero]; intro w hwm
       rcases hWk w hwm with x | x
@@ -476,18 +486,19 @@ theorem stuck_good {p : Params} {s : St} {ts : List Thr} (hW : 0 < p.W) (F : FIn
       exact L.d5 (Or.inr hdn)
   have hpq : s.pending = s.tasks.countP fQ := by rw [hcons]; exact pend_eq_queued L hWk hret hns hch
   have fin : (wg s = 0 ∨ s.running = true) → s.pending = 0 → ∀ t ∈ ts,
-      t.finished = true ∨ (t.atWaitComplete = true ∧ s.running = true) := by
+      t.finished = true ∨ (t.atWaitComplete = true ∧ s.running = true) ∨ t.atQueueWait = true := by
     intro hwg hp0 t ht
     cases t with
     | runner => exact Or.inl rfl
     | client cl =>
       obtain ⟨pc, sc⟩ := cl
-      rcases hCl _ ht with a | a | a
+      rcases hCl _ ht with a | a | a | a
       · simp at a; obtain ⟨a1, a2⟩ := a; subst a1; subst a2; exact Or.inl rfl
       · rcases hwg with z | z
         · exact absurd z a.2
-        · right; rcases a.1 with b | b <;> (simp at b; subst b; exact ⟨rfl, z⟩)
+        · right; left; rcases a.1 with b | b <;> (simp at b; subst b; exact ⟨rfl, z⟩)
       · exact absurd hp0 a.2
+      · obtain ⟨n, a⟩ := a; simp at a; subst a; exact Or.inr (Or.inr rfl)
   rcases hdisp with hdn | hdw
   · -- no dispatcher: the pool is stopped and everybody has left
     have hnr : s.running = false := by
